@@ -218,6 +218,11 @@ def derivatives_thermal_numba(node_pit, branch_pit,
                 dfb_dt[i] = np.exp(- alpha * length / (cp_b[i] * mdot))
             else:
                 fb[i] = amb - t_init_i1[i]
+                # no contribution of non-flowing branches to the node equations (as in the numpy
+                # implementation; also covers NaN mass flows)
+                fnt[i] = 0
+                dfnt_dt[i] = 0
+                dfnt_dtout[i] = 0
             dfb_dtout[i] = -1
         if branches_flow[i]:
             result_from = club_to[from_nodes[i]] if (from_nodes[i] < len(club_to)) else False
